@@ -63,9 +63,37 @@ def live_bound(n):
 
 
 # ---------------------------------------------------------------- system under test
+_OTHER_LINKS = []
+
+
+def _other_link_mid_frame(n=2):
+    """A second, unrelated UART link in the same process, stopped while a frame is on its line, kept alive: what a link
+    does must not depend on other links of the process."""
+    from py4hw.logic.protocol.uart.serdes import UARTSerializer, UARTDeserializer
+    from py4hw.logic.protocol.uart.clock import ClockGenerationAndRecovery
+    from py4hw.base import HWSystem
+    hw = HWSystem()
+    W = hw.wire
+    s_ready, s_valid, s_v = W('s_ready'), W('s_valid'), W('s_v', 8)
+    tx, txp, rxs, desync = W('tx'), W('tx_clk_pulse'), W('rx_sample'), W('desync')
+    d_ready, d_valid, d_v = W('d_ready'), W('d_valid'), W('d_v', 8)
+    ClockGenerationAndRecovery(hw, 'cgr', tx, desync, txp, rxs, 2 * n, 1)
+    UARTSerializer(hw, 'ser', s_ready, s_valid, s_v, txp, tx)
+    UARTDeserializer(hw, 'des', tx, rxs, d_ready, d_valid, d_v, desync)
+    sim = hw.getSimulator()
+    s_valid.put(1)
+    s_v.put(0xA5)
+    d_ready.put(1)
+    sim.clk(6 * 2 * n)          # start bit and a few data bits are out, the frame is not finished
+    _OTHER_LINKS.append((hw, sim))
+    del _OTHER_LINKS[:-2]
+
+
 def build_system(n):
     from py4hw.logic.protocol.uart.serdes import UARTSerializer, UARTDeserializer
     from py4hw.logic.protocol.uart.clock import ClockGenerationAndRecovery
+    with core.quiet():
+        _other_link_mid_frame()
     hw = py4hw.HWSystem()
     W = hw.wire
     c = types.SimpleNamespace(sys=hw, n=n)
@@ -364,6 +392,12 @@ def run_shard(d):
     # path bookkeeping) so that a different failure is not hidden behind an earlier one of the same base clause
     seen_base, seen_sig = set(), set()
     for kind, trace, detail in ex.violations:
+        if detail.get('sigkey') in ('raised', 'history_dependent'):
+            sig = 'C17:n=%d:%s' % (d['n'], detail['sigkey'])
+            if sig not in seen_sig:
+                seen_sig.add(sig)
+                res['violations'].append({'sig': sig, 'shard': d, 'trace': [list(x) for x in trace], 'detail': detail})
+            continue
         grp = (detail['base'], detail.get('few_ready'))
         if grp in seen_base:
             continue
